@@ -101,16 +101,16 @@ func c23(c *engine.Ctx) {
 		c.Floor("fresh-arg", a.NArgs, 30)
 		c.Floor("slot-fresh", a.NSlots, 7)
 		// (2) contract functions: closed set, direct calls only, inside the package
-		want := []string{
-			P + "(*InnerNode).RebuildMiniMerkle", P + "(*InnerNode).setChild", P + "(*LeafNode).RebuildMiniMerkle",
+		// the set is DERIVED (a private helper that forwards its parameter to a mutator is itself a
+		// mutator whose callers are checked); only exported mutators need an explicit allow-list
+		wantExported := []string{
+			P + "(*InnerNode).RebuildMiniMerkle", P + "(*LeafNode).RebuildMiniMerkle",
 			P + "(*MiniMerkle).Build", P + "(*MiniMerkle).Clear", P + "(*MiniMerkle).SetSlot",
-			P + "fixUnderflow", P + "innerInsert", P + "innerRemove", P + "leafInsert", P + "leafRemove", P + "merge",
-			P + "nodeInsert", P + "nodeRemove", P + "redistributeLeft", P + "redistributeRight",
 		}
 		got := a.ContractNames()
-		missing, extra := tgSetEq(got, want)
-		c.Check("contract-set", "tm2/pkg/bptree mutators requiring a fresh node", token.NoPos, len(missing) == 0 && len(extra) == 0,
-			"functions that write through a parameter: "+join(got)+"; unexpected: "+join(extra)+"; no longer mutating: "+join(missing))
+		extra := engine.SetDiff(a.ExportedContracts(), wantExported)
+		c.Check("contract-set", "tm2/pkg/bptree exported mutators requiring a fresh node", token.NoPos, len(extra) == 0 && len(got) >= 8,
+			"functions that write through a parameter (derived): "+join(got)+"; exported and not in the allow-list: "+join(extra))
 		n := 0
 		for _, name := range got {
 			callers, nonCalls := tgCallersOf(p, name)
@@ -124,7 +124,7 @@ func c23(c *engine.Ctx) {
 			c.Check("contract-callers", name, token.NoPos, len(nonCalls) == 0 && len(outside) == 0,
 				"referenced from "+join(callers)+"; as a value in: "+join(nonCalls)+"; outside the package: "+join(outside))
 		}
-		c.Floor("contract-callers", n, 16)
+		c.Floor("contract-callers", n, 8)
 	}
 
 	// ---- key-writers / root-writers
@@ -134,13 +134,10 @@ func c23(c *engine.Ctx) {
 			c.Undecided("anchor", P+tn+".nodeKey", "field not found")
 			continue
 		}
-		ws := engine.WriterSet(p.FieldWrites(fld), nil)
-		want := []string{P + "(*" + tn + ").Clone", P + "(*" + tn + ").SetNodeKey", P + "read" + tn}
-		c.Check("key-writers", P+tn+".nodeKey", token.NoPos, len(engine.SetDiff(ws, want)) == 0, "writers: "+join(ws))
+		tgTableWriters(c, p, "key-writers", P+tn+".nodeKey", p.FieldWrites(fld), nil, []string{P + "(*" + tn + ").Clone", P + "(*" + tn + ").SetNodeKey", P + "read" + tn})
 	}
 	{
-		callers, nonCalls := tgCallersOf(p, P+"(*InnerNode).SetNodeKey", P+"(*LeafNode).SetNodeKey", P+"(Node).SetNodeKey")
-		c.Check("key-writers", "SetNodeKey callers", token.NoPos, len(engine.SetDiff(callers, []string{T + "saveNode"})) == 0 && len(nonCalls) == 0, "callers: "+join(callers))
+		tgTableCallers(c, p, "key-writers", "SetNodeKey callers", []string{T + "saveNode"}, P+"(*InnerNode).SetNodeKey", P+"(*LeafNode).SetNodeKey", P+"(Node).SetNodeKey")
 	}
 	rootF, lastF, sizeF, verF, poisF := p.Field(P+"MutableTree.root"), p.Field(P+"MutableTree.lastSaved"), p.Field(P+"MutableTree.size"), p.Field(P+"MutableTree.version"), p.Field(P+"MutableTree.poisoned")
 	for nm, f := range map[string]*types.Var{"root": rootF, "lastSaved": lastF, "size": sizeF, "version": verF, "poisoned": poisF} {
@@ -150,12 +147,8 @@ func c23(c *engine.Ctx) {
 		}
 	}
 	{
-		ws := engine.WriterSet(p.FieldWrites(rootF), nil)
-		want := []string{T + "Set", T + "Remove", T + "SaveVersion", T + "Rollback", T + "loadVersionDiscovered", P + "(*Importer).Commit"}
-		c.Check("root-writers", P+"MutableTree.root", token.NoPos, len(engine.SetDiff(ws, want)) == 0, "writers: "+join(ws))
-		ws = engine.WriterSet(p.FieldWrites(lastF), nil)
-		want = []string{T + "SaveVersion", T + "loadVersionDiscovered"}
-		c.Check("root-writers", P+"MutableTree.lastSaved", token.NoPos, len(engine.SetDiff(ws, want)) == 0, "writers: "+join(ws))
+		tgTableWriters(c, p, "root-writers", P+"MutableTree.root", p.FieldWrites(rootF), nil, []string{T + "Set", T + "Remove", T + "SaveVersion", T + "Rollback", T + "loadVersionDiscovered", P + "(*Importer).Commit"})
+		tgTableWriters(c, p, "root-writers", P+"MutableTree.lastSaved", p.FieldWrites(lastF), nil, []string{T + "SaveVersion", T + "loadVersionDiscovered"})
 	}
 
 	// ---- (3) Set / Remove
@@ -227,11 +220,43 @@ func c23(c *engine.Ctx) {
 					}
 				}
 			}
+			if !ok {
+				// the error comes from a private helper that poisons the session on every failure:
+				// `return x, t.helper(...)` or `if err := t.helper(...); err != nil { return x, err }`
+				last := rs.Results[len(rs.Results)-1]
+				if call, isCall := ast.Unparen(last).(*ast.CallExpr); isCall {
+					if s := f.SiteOf(call); s != nil {
+						if k, poisons := tgPoisoningHelper(p, s, poisF, 2); poisons {
+							ok = true
+							n += k - 1
+						}
+					}
+				} else {
+					for _, s := range f.Calls() {
+						k, poisons := tgPoisoningHelper(p, s, poisF, 2)
+						if !poisons {
+							continue
+						}
+						if res := g.CheckedGuard(s, r); res.OK && tgIsErrTest(info, res.Cond) && res.OnTrue {
+							after := false
+							for _, w := range rootW {
+								if g.ReachableAfter(w, s) {
+									after = true
+								}
+							}
+							if after {
+								ok = true
+								n += k - 1
+							}
+						}
+					}
+				}
+			}
 			c.Check("poison-late-failure", f.Name+" error return after publication: "+tgRetKey(rs), r.Pos(), ok, "an error return reachable after `t.root = …` must be dominated by `t.poisoned = err`")
 		}
 		min := 2
 		if nm.fn == "Set" {
-			min = 5
+			min = 4
 		}
 		c.Floor("poison-late-failure "+nm.fn, n, min)
 	}
@@ -473,16 +498,14 @@ func c23(c *engine.Ctx) {
 	}
 	// poisoned = nil only in Rollback / loadVersionDiscovered
 	{
-		var clearers []string
-		for _, w := range p.FieldWrites(poisF) {
-			if as, ok := w.Node.(*ast.AssignStmt); ok {
-				if rhs := tgRHSFor(w.Fn, as, poisF); rhs != nil && isNil(rhs) {
-					clearers = append(clearers, w.Fn.Root().Name)
-				}
+		tgTableWriters(c, p, "poison-clear", P+"MutableTree.poisoned = nil", p.FieldWrites(poisF), func(w engine.Write) bool {
+			as, ok := w.Node.(*ast.AssignStmt)
+			if !ok {
+				return false
 			}
-		}
-		clearers = tgUniq(clearers)
-		c.Check("poison-clear", P+"MutableTree.poisoned = nil", token.NoPos, len(engine.SetDiff(clearers, []string{T + "Rollback", T + "loadVersionDiscovered"})) == 0 && len(clearers) > 0, "cleared in: "+join(clearers))
+			rhs := tgRHSFor(w.Fn, as, poisF)
+			return rhs != nil && isNil(rhs)
+		}, []string{T + "Rollback", T + "loadVersionDiscovered"})
 	}
 
 	// ---- (5) parallel arrays
